@@ -2369,29 +2369,19 @@ class RawAlgorithmsMixIn:
     def _diag(cls, v_data, k = 0, out = None):
         """Extract a diagonal or construct  diagonal UTPM data"""
 
-        if numpy.ndim(v_data) == 3:
-            D,P,N = v_data.shape
-            if out is None:
-                out = numpy.zeros((D,P,N,N),dtype=v_data.dtype)
-            else:
-                out[...] = 0.
-
-            for d in range(D):
-                for p in range(P):
-                    out[d,p] = numpy.diag(v_data[d,p])
-
-            return out
-
+        D,P = v_data.shape[:2]
+        # shape of numpy.diag applied to one coefficient slice (honours k and non-square input)
+        shp = numpy.diag(v_data[0,0], k=k).shape
+        if out is None:
+            out = numpy.zeros((D,P) + shp, dtype=v_data.dtype)
         else:
-            D,P,M,N = v_data.shape
-            if out is None:
-                out = numpy.zeros((D,P,N),dtype=v_data.dtype)
+            out[...] = 0.
 
-            for d in range(D):
-                for p in range(P):
-                    out[d,p] = numpy.diag(v_data[d,p])
+        for d in range(D):
+            for p in range(P):
+                out[d,p] = numpy.diag(v_data[d,p], k=k)
 
-            return out
+        return out
 
     @classmethod
     def _diag_pullback(cls, ybar_data, x_data, y_data, k = 0, out = None):
